@@ -182,10 +182,47 @@ class Model:
     def _discover_channels(self):
         fb = self.fb
         self.channels = []      # (body, bb, term)
+        self.channel_cap = {}   # (body id, bb) -> capacity operand (in that body)
+        raw = []
         for b in fb.prod_bodies():
             for bb, t in b.calls():
                 if callee_path(t) in CHANNEL_FNS:
-                    self.channels.append((b, bb, t))
+                    raw.append((b, bb, t))
+        # private constructors wrapping exactly one channel allocation: their call sites are the allocation sites
+        wrappers = {}
+        for (b, bb, t) in raw:
+            sig = fb.fns.get(b.id)
+            if b.kind != "fn" or sig is None or sig.get("public") and not (sig.get("impl_self") and not (fb.adts.get((sig.get("impl_self") or "").split("<")[0]) or {}).get("public", True)):
+                continue
+            if len([1 for (b2, _, _) in raw if b2.id == b.id]) != 1 or b.back_edges():
+                continue
+            sites = [(cb, cbb, ct) for (cb, cbb, ct) in self.flow.call_sites().get(b.id, []) if not fb.is_test_body(cb)]
+            if not sites:
+                continue
+            # both halves of the channel leave through the return value
+            rs = self.flow.sources_local(b, 0, (0,)) | self.flow.sources_local(b, 0, (1,))
+            if not any(x.kind == "alloc" and (x[1], x[2]) == (b.id, bb) for x in rs):
+                continue
+            wrappers[b.id] = (b, bb, t, sites)
+        if wrappers:
+            Flow.alloc_wrappers = {}
+            self.flow.alloc_wrappers = {hid: (hid, w[1]) for hid, w in wrappers.items()}
+            self.flow.table.clear()
+        for (b, bb, t) in raw:
+            if b.id in wrappers:
+                _, _, it, sites = wrappers[b.id]
+                cap = it["args"][0] if it["args"] else None
+                for (cb, cbb, ct) in sites:
+                    self.channels.append((cb, cbb, ct))
+                    # capacity: the wrapper's parameter that reaches the channel call
+                    if cap is not None and cap["k"] != "const":
+                        ex = strip_refs(expr_operand(b, cap))
+                        if ex.kind == "arg" and ex[1] - 1 < len(ct["args"]):
+                            self.channel_cap[(cb.id, cbb)] = ct["args"][ex[1] - 1]
+            else:
+                self.channels.append((b, bb, t))
+                if t["args"]:
+                    self.channel_cap[(b.id, bb)] = t["args"][0]
         self.DONE = None
         self.READY = None
         self.SETUP = None
